@@ -5,7 +5,8 @@ package main
 //
 //   * strings: a struct FIELD of type string is a Lean `String` (opaque text: a file name), every other string (parameter,
 //     local variable, result, conversion) is a byte string `Str` (a list of integers); a constant takes the kind of its
-//     context; any flow between the two kinds is refused.  `len(s)`, `s[i]` (range checked), `s == t`, `[]byte(s)` (a fresh
+//     context; any flow between the two kinds is refused — except that a string variable or parameter the function does
+//     nothing with but store it in string fields is itself text (pgTextVars below: `NewFile(filename string, …)`).  `len(s)`, `s[i]` (range checked), `s == t`, `[]byte(s)` (a fresh
 //     array), `string(bytes)`, `string(rune)` (the UTF-8 encoding), `append(b, s...)` are prelude calls;
 //   * integer conversions that can lose information (`int8(x)`, `byte(x)`, …) wrap around (`Go.wrap bits signed x`);
 //     conversions into a type that holds every value of the source type are the identity, as before;
@@ -18,6 +19,8 @@ package main
 //   * `return` inside a loop: the loop function answers `(some result, state)`, its caller returns the result;
 //     `for { … }` without a condition takes its fuel from the guards `if a >= b { return/break }` of its body and from the
 //     lengths of the slices and strings it mentions (too little fuel is the outcome `outOfFuel`, never a value);
+//   * `bytes.Replace(s, old, new, -1)` (only with the constant -1) and `bytes.ReplaceAll(s, old, new)` are the prelude's
+//     `Go.bytesReplaceAll`; `return &v` of a local struct variable returns the variable's value (owned struct pointers);
 //   * the standard library: utf8.DecodeRune, bytes.HasPrefix, fmt.Sprintf (verbs %s %d, constant format, parsed here) are
 //     prelude functions; the regexp engine (`r.getPattern(expr).FindIndex(b)`) and strconv.UnquoteChar are fields of the
 //     external world `X : Ext`, the first parameter of every function that (transitively) needs it.
@@ -62,6 +65,9 @@ func (c *pgCtx) strKind(e ast.Expr) int {
 		if sel, ok := c.info.Selections[x]; ok && sel.Kind() == types.FieldVal {
 			return pgText
 		}
+	}
+	if id, ok := e.(*ast.Ident); ok && c.isText(c.info.Uses[id]) { // a variable that is only stored (pgTextVars)
+		return pgText
 	}
 	return pgBytes
 }
@@ -256,6 +262,21 @@ func (c *pgCtx) external(o *types.Func, x *ast.CallExpr, recv ast.Expr) (pre []s
 	case "bytes.HasPrefix":
 		a := c.atom(x.Args[0], &pre)
 		return pre, "Go.hasPrefix " + a + " " + c.atom(x.Args[1], &pre), true, true
+	case "bytes.Replace", "bytes.ReplaceAll":
+		// bytes.Replace(s, old, new, -1) = bytes.ReplaceAll(s, old, new); any other count is outside the subset
+		if o.Name() == "Replace" {
+			tv := c.info.Types[x.Args[3]]
+			n, exact := int64(0), false
+			if tv.Value != nil && tv.Value.Kind() == constant.Int {
+				n, exact = constant.Int64Val(tv.Value)
+			}
+			if !exact || n != -1 {
+				pgFail("bytes.Replace with a count that is not the constant -1: %s", norm(x))
+			}
+		}
+		a := c.atom(x.Args[0], &pre)
+		b := c.atom(x.Args[1], &pre)
+		return pre, "Go.bytesReplaceAll " + a + " " + b + " " + c.atom(x.Args[2], &pre), true, true
 	case "strconv.UnquoteChar":
 		c.needExt()
 		a := pgP(c.strVal(x.Args[0], false, &pre))
@@ -478,6 +499,10 @@ func (c *pgCtx) inoutCall(x *ast.CallExpr) (pre []string, vals []string) {
 	as = append(as, r)
 	sig := fn.obj.Type().(*types.Signature)
 	for i, a := range x.Args {
+		if c.isText(sig.Params().At(i)) {
+			as = append(as, c.strVal(a, true, &pre))
+			continue
+		}
 		as = append(as, c.arg(a, sig.Params().At(i).Type(), &pre))
 	}
 	nr := c.tmp()
@@ -555,3 +580,186 @@ func (g *pgGen) markExt() {
 }
 
 var _ = fmt.Sprintf
+
+// ---- text variables ----
+//
+// A string-typed parameter or local variable holds TEXT (a Lean `String`, like a struct field of type string) instead of a
+// byte string when the function does nothing with it but store it: every mention of it is the value of a string field in a
+// struct literal, the right-hand side of an assignment to a string field, or the right-hand side of an assignment to
+// another text variable; and (for a local variable) every value assigned to it is a constant, a string field or a text
+// variable.  A variable that is never mentioned is not text.  (Without this rule such a function is refused — "the byte
+// string … is used as the text of a field" — so the rule changes the translation of no function that was translated.)
+func pgTextVars(info *types.Info, fd *ast.FuncDecl) map[*types.Var]bool {
+	cand := map[*types.Var]bool{}
+	isParam := map[*types.Var]bool{}
+	if fd.Type.Params != nil {
+		for _, f := range fd.Type.Params.List {
+			for _, id := range f.Names {
+				if v, ok := pgLocal(info.Defs[id]); ok && pgIsString(v.Type()) {
+					cand[v], isParam[v] = true, true
+				}
+			}
+		}
+	}
+	bad := map[*types.Var]bool{}
+	uses := map[*types.Var]int{}
+	flows := map[*types.Var][]*types.Var{} // u -> the variables u is assigned to
+	srcs := map[*types.Var][]*types.Var{}  // v -> the variables assigned to v
+	lhsIdent := map[*ast.Ident]bool{}
+	sinkField := map[*ast.Ident]bool{}
+	sinkVar := map[*ast.Ident]*types.Var{}
+	varOf := func(e ast.Expr) (*ast.Ident, *types.Var) {
+		id, ok := pgUnparen(e).(*ast.Ident)
+		if !ok {
+			return nil, nil
+		}
+		o := info.Uses[id]
+		if o == nil {
+			o = info.Defs[id]
+		}
+		v, ok := pgLocal(o)
+		if !ok || !pgIsString(v.Type()) {
+			return nil, nil
+		}
+		return id, v
+	}
+	isStrField := func(e ast.Expr) bool {
+		x, ok := pgUnparen(e).(*ast.SelectorExpr)
+		if !ok {
+			return false
+		}
+		sel, ok := info.Selections[x]
+		return ok && sel.Kind() == types.FieldVal && pgIsString(sel.Obj().Type())
+	}
+	define := func(lhs, rhs ast.Expr, isDef bool) {
+		if isStrField(lhs) {
+			if id, _ := varOf(rhs); id != nil {
+				sinkField[id] = true
+			}
+			return
+		}
+		lid, w := varOf(lhs)
+		if w == nil {
+			return
+		}
+		lhsIdent[lid] = true
+		if isDef {
+			cand[w] = true
+		}
+		if rhs == nil {
+			return
+		}
+		rid, u := varOf(rhs)
+		switch {
+		case u != nil:
+			sinkVar[rid] = w
+			flows[u] = append(flows[u], w)
+			srcs[w] = append(srcs[w], u)
+		case info.Types[rhs].Value != nil || isStrField(rhs):
+		default:
+			bad[w] = true
+		}
+	}
+	ast.Inspect(fd.Body, func(n ast.Node) bool {
+		switch x := n.(type) {
+		case *ast.CompositeLit:
+			if _, st := pgStructOf(info.TypeOf(x)); st != nil {
+				for i, el := range x.Elts {
+					val, ft := el, types.Type(nil)
+					if kv, ok := el.(*ast.KeyValueExpr); ok {
+						val = kv.Value
+						if k, ok := kv.Key.(*ast.Ident); ok {
+							for j := 0; j < st.NumFields(); j++ {
+								if st.Field(j).Name() == k.Name {
+									ft = st.Field(j).Type()
+								}
+							}
+						}
+					} else if i < st.NumFields() {
+						ft = st.Field(i).Type()
+					}
+					if ft != nil && pgIsString(ft) {
+						if id, _ := varOf(val); id != nil {
+							sinkField[id] = true
+						}
+					}
+				}
+			}
+		case *ast.AssignStmt:
+			if (x.Tok == token.ASSIGN || x.Tok == token.DEFINE) && len(x.Lhs) == len(x.Rhs) {
+				for i := range x.Lhs {
+					define(x.Lhs[i], x.Rhs[i], x.Tok == token.DEFINE)
+				}
+			} else {
+				for _, l := range x.Lhs {
+					if id, w := varOf(l); w != nil {
+						lhsIdent[id], bad[w] = true, true
+					}
+				}
+			}
+		case *ast.ValueSpec:
+			for i, id := range x.Names {
+				if len(x.Values) == len(x.Names) {
+					define(id, x.Values[i], true)
+				} else if len(x.Values) == 0 {
+					define(id, nil, true)
+				} else if _, w := varOf(id); w != nil {
+					bad[w] = true
+				}
+			}
+		}
+		return true
+	})
+	ast.Inspect(fd.Body, func(n ast.Node) bool {
+		id, ok := n.(*ast.Ident)
+		if !ok || lhsIdent[id] {
+			return true
+		}
+		v, ok := pgLocal(info.Uses[id])
+		if !ok || !cand[v] {
+			return true
+		}
+		uses[v]++
+		if !sinkField[id] && sinkVar[id] == nil {
+			bad[v] = true
+		}
+		return true
+	})
+	text := map[*types.Var]bool{}
+	for v := range cand {
+		if !bad[v] && uses[v] > 0 {
+			text[v] = true
+		}
+	}
+	for changed := true; changed; {
+		changed = false
+		for v := range text {
+			ok := true
+			for _, w := range flows[v] {
+				ok = ok && text[w]
+			}
+			for _, u := range srcs[v] {
+				ok = ok && text[u]
+			}
+			if !ok {
+				delete(text, v)
+				changed = true
+			}
+		}
+	}
+	return text
+}
+
+// isText: the variable holds text (see pgTextVars)
+func (c *pgCtx) isText(o types.Object) bool {
+	v, ok := o.(*types.Var)
+	return ok && c.g != nil && c.g.textVars[v]
+}
+
+// varTyp: the Lean type of a parameter or local variable
+func (c *pgCtx) varTyp(v types.Object) string {
+	if c.isText(v) {
+		return "String"
+	}
+	return c.typ(v.Type())
+}
